@@ -31,10 +31,14 @@ META = dict(
     level_note="The theorems are about the repaired code (fixes/C09-clear-prev-state-with-run-id.diff): on the code "
                "as it is `_prev_state` survives Stop/Restart, so an error pause (or a method-issued Unpause) in the "
                "next run applies the previous run's outputs - Lean witness asIs_counterexample, replayed on the real "
-               "engine every run and reported as VIOLATION until the diff is applied. 'Most recent Pause' is the "
-               "most recently *executed* Pause command: two Pause requests accepted before one tick both execute, "
-               "the second captures the safe values (observed on the real engine, not a violation of the letter of "
-               "C09; the oracle does not judge such periods). Trusted: Lean kernel, harness, model (see C06). "
+               "engine every run and reported as VIOLATION until the diff is applied. 'The most recent Pause' is the moment "
+               "the pause BEGAN (C09_full). On the code as it is a Pause body that runs while already paused (two "
+               "Pause requests accepted before one tick, user + method Pause in one tick, a queued Pause after an "
+               "error pause) captures the safe values, and Unpause then restores those instead of the outputs from "
+               "before the pause: C09_counterexample, recorded finding unpause-restores-safe-values-after-double-"
+               "pause (reproduced on the real engine every run), proposed repair fixes/C09-double-pause-capture.diff "
+               "(C09_repaired: with it the full statement holds; C09_partial: what holds without it). The model "
+               "variant follows the tree under test. Trusted: Lean kernel, harness, model (see C06). "
                "Outputs are integer tags of write registers; UOD commands are not in this model, their effect on "
                "outputs is the `set` operation.",
     technique="Lean 4 proof (history variables + invariant over the guarded action system that the controller "
@@ -45,7 +49,9 @@ MODULE = "OPM.Properties.C09"
 REQUIRED = ["OPM.C09.unpause_restores_latest_pause_of_same_run", "OPM.C09.prevOK_reach", "OPM.C09.prevOK_run",
             "OPM.C09.pause_captures", "OPM.C09.unpause_applies", "OPM.C09.pause_unpause_roundtrip",
             "OPM.C09.overlay_capture_applySafe", "OPM.C09.error_while_paused_keeps_snapshot",
-            "OPM.C09.unpause_without_pause_changes_nothing", "OPM.C09.asIs_counterexample"]
+            "OPM.C09.unpause_without_pause_changes_nothing", "OPM.C09.asIs_counterexample",
+            "OPM.C09.C09_repaired", "OPM.C09.C09_counterexample", "OPM.C09.C09_partial",
+            "OPM.C09.unpause_restores_onset"]
 
 T = ["tick", 8, 8, 0]
 WITNESS = {"method": "Mark: a",
@@ -89,23 +95,29 @@ def oracle(case: dict, recs: list[dict]) -> list[Failure]:
             (op[0] == "tick" and len(op) > 3 and bool(op[3]))
         same_run = a["run_id"] is not None and a["run_id"] == b["run_id"] and b["started"]
         if not a["paused"] and b["paused"]:
-            if unresolved == 1 and not error:
-                period = {"kind": "cmd", "expected": list(a["outs"])}     # exactly one Pause command ran
-            elif unresolved == 0 and error:
+            # the pause begins in this tick: whatever began it (one Pause, several Pause requests, a Pause and an
+            # error), the values to restore are the outputs from before this tick
+            if unresolved >= 1:
+                period = {"kind": "cmd", "expected": list(a["outs"]), "multi": unresolved > 1 or error}
+            elif error:
                 period = {"kind": "error", "expected": list(a["outs"])}   # an error pause
             else:
-                period = {"kind": "ambiguous"}
+                period = {"kind": "ambiguous"}                            # cause unknown to the oracle
             unresolved = 0
         elif a["paused"] and b["paused"]:
-            if unresolved > 0 and period is not None:
-                period = {"kind": "ambiguous"}       # another Pause command may have run inside the period
+            if unresolved > 0 and period is not None and period["kind"] == "cmd":
+                period["multi"] = True       # a Pause body ran while already paused
+                unresolved = 0
         elif a["paused"] and not b["paused"]:
             if same_run and period is not None and unresolved == 0:
                 if period["kind"] == "cmd":
                     bad = [j for j in safe_idx if b["outs"][j] != period["expected"][j]]
                     if bad:
-                        fail("unpause-restores-wrong-values", i,
-                             f"outputs before the pause {period['expected']}, after Unpause {b['outs']}")
+                        key = ("unpause-restores-safe-values-after-double-pause"
+                               if period.get("multi") and all(b["outs"][j] == SAFES[j] for j in bad)
+                               else "unpause-restores-wrong-values")
+                        fail(key, i, f"outputs before the pause began {period['expected']}, after Unpause "
+                                     f"{b['outs']}")
                 elif period["kind"] == "error":
                     # either the error pause captured nothing and Unpause leaves the outputs alone, or it applied
                     # the safe state like Pause and Unpause restores the values from before it
@@ -246,6 +258,8 @@ def gen_early_unpause(rng) -> dict:
                         raw = do(op)
         else:
             raw = do(["user", "Pause"])
+            if rng.random() < 0.3:
+                raw = do(["user", "Pause"])          # two requests accepted before one tick
             raw = do(list(T))
             for op in sets(0, 1):
                 raw = do(op)
